@@ -140,6 +140,24 @@ CHECKS = {
         note=TRUST + "Whole-output equality additionally relies on the component decomposition of the printers (PLB-1) and is not executed.",
         technique="static analysis: sibling-implementation agreement by constant propagation with string templates; provenance of guard predicates; value flow",
     ),
+    "C14": dict(
+        category="other",
+        text="Delegation decided on the type-checked python feature build: each library setter has a sibling exported under the same Python name with an equal "
+             "effect summary; thresholds and the constructor raise ValueError with the library's messages exactly when the library would panic; build returns the "
+             "library's pattern, rewritten iff escaping is on; every escape width the Rust side can emit is consumed by the rewriter and becomes \\u+4 / \\U+8 digits.",
+        design_ref="DESIGN.md §4 C14",
+        note=TRUST + "pyo3's generated glue and CPython's re module are trusted; nothing is executed.",
+        technique="static analysis: effect-summary agreement of sibling implementations, producer/consumer agreement on constant patterns and format templates",
+    ),
+    "C17": dict(
+        category="other",
+        text="Delegation decided on src/wasm.rs type-checked for the host: all 16 setters have camelCase siblings with equal effect summaries returning a clone; "
+             "thresholds store only values >= 1 else Err(JsValue(library message)); from() reaches the panicking library constructor only for a non-empty list; "
+             "build() returns the library's build() unchanged.",
+        design_ref="DESIGN.md §4 C17",
+        note=TRUST + "No wasm32 target exists in the sandbox: the bodies are analysed under the host target; #[wasm_bindgen] glue is trusted.",
+        technique="static analysis: effect-summary agreement of sibling implementations via constant propagation",
+    ),
 }
 
 NOT_APPLICABLE = {
